@@ -8,6 +8,17 @@ documents with at most one injected violation; additionally every rule run STAND
 theorems of Props/C06*.lean are stated.
 Inputs on which the model says "crash" (a Python exception ends validation: ledger V1, V2, ...) are
 counted and not compared.
+
+THE TIE TO THE HEADLINE THEOREMS (Props/C06_head.lean: verdict_iff_all, attribution_all). They assume of the document
+`DocOk s d` = the three static checks `wfIdsB d`, `noMetaSubsB d`, `rankOkB s d (rankOf (computeRanks d))` + fragment
+names not "" and of the schema `SchemaOutputs s` (computable: `schemaOutputsB`). The driver evaluates all five on the
+very document / schema of every answer (`checks`); here
+  * `ids`, `names`, `schema_outputs` false for a PARSED document on a BUILT schema is a bug of the translation to the
+    model (selection-set identity = start offset; the parser never yields an empty name; `build_schema` validates):
+    correspondence failure `doc-check-false:<which>`;
+  * `meta` false (a `__schema` / `__type` / `__typename` selection with a sub-selection) and `rank` false (nesting through
+    spreads beyond the rank bound, or a fragment cycle) are properties of the INPUT: counted (`headline-not-applicable:*`),
+    the headline theorem says nothing about these documents (the per-rule theorems and the comparison still do).
 """
 import json
 
@@ -125,6 +136,38 @@ def model_outcome(ans):
     return ("errors" if any(k for _, k in by) else "ok"), sorted(n for n, k in by if k)
 
 
+CHECKS = ("ids", "meta", "rank", "names", "schema_outputs")
+MUST_HOLD = ("ids", "names", "schema_outputs")
+
+
+def doc_checks(ctx, ans, kind, detail):
+    """evaluate the `checks` of one answer; returns False when the answer carries none"""
+    ck = ans.get("checks")
+    tally = ctx.extra.setdefault("doc_checks", {"answers": 0, "headline_applies": 0,
+                                                "false": {k: 0 for k in CHECKS}, "true": {k: 0 for k in CHECKS}})
+    if not isinstance(ck, dict) or any(k not in ck for k in CHECKS):
+        ctx.fail("doc-check-false:missing", "the driver's answer carries no static checks", detail, kind="correspondence")
+        return False
+    tally["answers"] += 1
+    for k in CHECKS:
+        tally["true" if ck[k] else "false"][k] += 1
+    if all(ck[k] for k in CHECKS):
+        tally["headline_applies"] += 1
+    for k in MUST_HOLD:
+        if not ck[k]:
+            ctx.fail("doc-check-false:" + k,
+                     "static check `%s` of the headline theorem is false for a parsed document on a built schema: "
+                     "the translation to the model is wrong" % k, dict(detail, checks=ck), kind="correspondence")
+    if kind == "chain":
+        ctx.count()
+        for k in ("meta", "rank"):
+            if not ck[k]:
+                ctx.stat("headline-not-applicable:%s:%s" % (k, str(detail.get("label", "")).split(":")[0]))
+        if all(ck[k] for k in CHECKS):
+            ctx.stat("headline-applies")
+    return True
+
+
 def run(ctx, collect):
     if not ctx.model_ok:
         ctx.notes.append("driver did not build: correspondence skipped, direct oracle only")
@@ -179,6 +222,7 @@ def run(ctx, collect):
         for (kind, text, real, label, feature, rule), ans in zip(meta, answers):
             ctx.count()
             mo, mrules = model_outcome(ans)
+            doc_checks(ctx, ans, kind, {"part": "model", "sdl": world.sdl, "text": text, "label": label, "rule_alone": rule})
             if kind == "alone":
                 real = real_chain(world.schema, text, rules=[by_cls[rule]])
                 alone_real.setdefault(text, {})[rule] = real["outcome"]
@@ -230,5 +274,8 @@ def replay(ctx, data):
                            "fixes": fixes, "docs": [req]}])[0][0]
     mo, mrules = model_outcome(ans)
     real = real_chain(schema, inp["text"], rules=rules)
-    print(json.dumps({"model": mo, "model_rules": mrules, "real": real["outcome"], "real_rules": reporting(real)}))
+    ck = ans.get("checks") or {}
+    print(json.dumps({"model": mo, "model_rules": mrules, "real": real["outcome"], "real_rules": reporting(real), "checks": ck}))
+    if not all(ck.get(k) for k in MUST_HOLD):
+        return False
     return mo.startswith("raise") or (mo == real["outcome"] and mrules == reporting(real))
